@@ -85,6 +85,7 @@ type GuardDecl struct {
 }
 
 type TypeSpec struct {
+	Private  []string // fields (and, for maps, their contents) touched only by the declaring package
 	Pkg      string
 	Name     string
 	Guards   []GuardDecl
@@ -198,6 +199,12 @@ func (db *ContractDB) LoadContractFile(file, pkgPath string) {
 			}
 			curType = &TypeSpec{Pkg: pk, Name: name, Monitors: map[string][]*Clause{}}
 			db.Types[pk+"."+name] = curType
+		case "private":
+			if curType == nil || len(fields) < 2 {
+				errf("bad private clause")
+				return
+			}
+			curType.Private = append(curType.Private, fields[1])
 		case "chan":
 			if curType == nil || len(fields) < 4 || fields[2] != "guarded_by" {
 				errf("bad chan clause")
